@@ -453,7 +453,7 @@ pub fn c19_file(ctx: &Ctx, out: &mut RunOut) -> Result<(), Violation> {
 /// C01: save → load returns the same document, for both xref formats, under
 /// chunked/interrupted I/O, under every loader schedule, repeatedly.
 pub fn c01_roundtrip(ctx: &Ctx, out: &mut RunOut) -> Result<(), Violation> {
-    let (m, _cfg) = gen::gen_doc(ctx);
+    let (mut m, _cfg) = gen::gen_doc(ctx);
     let cycles = 1 + ctx.draw(W, 3, "cycles") as usize;
     let mut d = sim::to_doc(&m);
     let mut h = 0u64;
@@ -510,6 +510,25 @@ pub fn c01_roundtrip(ctx: &Ctx, out: &mut RunOut) -> Result<(), Violation> {
         pdfmodel::same_doc(&m, &got3, &|_, o| pdfmodel::is_xref_stream_obj(o))
             .map_err(|(cl, e)| Violation::new(cl, format!("cycle {c} (sequential reader): {e}")))?;
         d = d2;
+        // the loaded document is an in-memory document like any other: it may be edited before
+        // the next cycle (objects added through the public API, one replaced)
+        if c + 1 < cycles && ctx.chance(W, 1, 2, "edit-between-cycles") {
+            let mut g = gen::Gen::new(ctx, gen::draw_cfg(ctx));
+            g.cfg.max_depth = g.cfg.max_depth.min(3);
+            g.ids = m.objects.keys().cloned().collect();
+            if g.ids.is_empty() {
+                g.ids.push((1, 0));
+            }
+            for _ in 0..1 + ctx.draw(W, 3, "added-objects") {
+                let o = g.gen_obj(0, true);
+                let id = d.add_object(sim::to_obj(&o));
+                if m.objects.contains_key(&id) {
+                    return Err(Violation::new("new-id-collides", format!("cycle {c}: add_object on a loaded document returned the existing id {id:?}")));
+                }
+                m.objects.insert(id, o);
+            }
+            ctx.count("edited-between-cycles");
+        }
     }
     out.case_hash = h;
     out.nontrivial = !m.objects.is_empty();
